@@ -58,6 +58,22 @@ func keyURL(k int64) *url.URL {
 	return &url.URL{Scheme: "http", Host: "h" + strconv.FormatInt(k, 10) + ".test:80"}
 }
 
+// variantURL is keyURL(k) dressed with userinfo, query or fragment that differ from call to call: server identity is
+// (scheme, host, path) only, so administration through any variant must address the same member.
+func variantURL(k int64, n int) *url.URL {
+	u := keyURL(k)
+	switch n % 4 {
+	case 1:
+		u.User = url.UserPassword("svc", "p"+strconv.Itoa(n))
+	case 2:
+		u.RawQuery = "v=" + strconv.Itoa(n)
+	case 3:
+		u.User = url.User("u" + strconv.Itoa(n))
+		u.Fragment = "f"
+	}
+	return u
+}
+
 func urlKey(u *url.URL) int64 {
 	h := strings.TrimSuffix(strings.TrimPrefix(u.Host, "h"), ".test:80")
 	k, err := strconv.ParseInt(h, 10, 64)
@@ -330,6 +346,7 @@ func (c *rebComp) Run(h *hlib.History) ([]hlib.Mon, bool) {
 	}
 
 	var mons []hlib.Mon
+	calls := 0 // administration calls so far: selects the URL variant used for the next one
 	hit := func(prop string, step int, f string, a ...interface{}) {
 		mons = append(mons, hlib.Mon{Prop: prop, Step: step, Msg: fmt.Sprintf(f, a...)})
 	}
@@ -364,9 +381,11 @@ func (c *rebComp) Run(h *hlib.History) ([]hlib.Mon, bool) {
 			curKey = k
 			var e error
 			if has {
-				e = rb.UpsertServer(keyURL(k), roundrobin.Weight(int(w)))
+				calls++
+				e = rb.UpsertServer(variantURL(k, calls), roundrobin.Weight(int(w)))
 			} else {
-				e = rb.UpsertServer(keyURL(k))
+				calls++
+				e = rb.UpsertServer(variantURL(k, calls))
 			}
 			curKey = -1
 			o, ws, order := observe(hlib.B2i(e != nil))
@@ -396,7 +415,8 @@ func (c *rebComp) Run(h *hlib.History) ([]hlib.Mon, bool) {
 			prevW = ws
 		case 1: // Remove
 			k := op[1]
-			e := rb.RemoveServer(keyURL(k))
+			calls++
+			e := rb.RemoveServer(variantURL(k, calls))
 			o, ws, order := observe(hlib.B2i(e != nil))
 			h.Obs = append(h.Obs, o)
 			_, existed := cfgW[k]
